@@ -322,6 +322,26 @@ func (x *Exec) specHelper(o *types.Func, e *ast.CallExpr, st *State, env *Env) (
 		return []Value{Scalar{ite(c.T, a.T, b.T), a.TI}}, true
 	case "forall_", "exists_":
 		return []Value{x.evalQuant(o.Name(), e, st, env)}, true
+	case "all8_":
+		// bounded universal quantifier over 0..7, expanded into a conjunction (quantifier-free)
+		fl, ok := e.Args[0].(*ast.FuncLit)
+		if !ok || len(fl.Body.List) != 1 || fl.Type.Params.NumFields() != 1 {
+			x.abort("all8_ needs a function literal with one parameter")
+		}
+		ret, ok := fl.Body.List[0].(*ast.ReturnStmt)
+		if !ok {
+			x.abort("all8_ body must be a single return")
+		}
+		po := x.objOf(fl.Type.Params.List[0].Names[0])
+		var cs []string
+		x.specDepth++
+		for k := 0; k < 8; k++ {
+			env2 := newEnv(env)
+			env2.vals[po] = Scalar{fmt.Sprint(k), intTI}
+			cs = append(cs, x.eval(ret.Results[0], st, env2).(Scalar).T)
+		}
+		x.specDepth--
+		return []Value{Scalar{and(cs...), boolTI}}, true
 	case "trig":
 		var ts []string
 		for _, a := range e.Args {
@@ -438,6 +458,19 @@ func (x *Exec) evalQuant(kind string, e *ast.CallExpr, st *State, env *Env) Valu
 		}
 	}
 	anchors := x.findAnchors(ret.Results[0], bound)
+	// an explicit trig(...) fixes the patterns: the bound variables stay bare (no re-indexing by a heap read)
+	hasTrig := false
+	ast.Inspect(ret.Results[0], func(n ast.Node) bool {
+		if ce, ok := n.(*ast.CallExpr); ok {
+			if id, ok := ce.Fun.(*ast.Ident); ok && id.Name == "trig" {
+				hasTrig = true
+			}
+		}
+		return !hasTrig
+	})
+	if hasTrig {
+		anchors = map[types.Object]quantAnchor{}
+	}
 	x.specDepth++
 	x.binders++
 	bnOf := map[types.Object]string{}
@@ -481,13 +514,20 @@ func (x *Exec) evalQuant(kind string, e *ast.CallExpr, st *State, env *Env) Valu
 			if dependsOnAnchored && pass == 0 {
 				continue
 			}
-			sv, ok := x.eval(a.node.X, st, env2).(Slice)
+			ast0 := st
+			if a.inOld {
+				if len(x.oldStack) == 0 {
+					continue
+				}
+				ast0 = x.oldStack[len(x.oldStack)-1]
+			}
+			sv, ok := x.eval(a.node.X, ast0, env2).(Slice)
 			if !ok {
 				continue
 			}
 			base := sv.Off
 			for _, t := range a.rest {
-				tv := x.toInt(x.eval(t.e, st, env2))
+				tv := x.toInt(x.eval(t.e, ast0, env2))
 				if t.neg {
 					base = simpSub(base, tv)
 				} else {
@@ -588,6 +628,7 @@ type signedExpr struct {
 }
 
 type quantAnchor struct {
+	inOld bool // the anchor read is inside old(...): its slice and offsets are evaluated in the pre-state
 	node  *ast.IndexExpr
 	rest  []signedExpr
 	text  string
@@ -625,75 +666,96 @@ func (x *Exec) findAnchors(body ast.Expr, bound map[types.Object]bool) map[types
 		}
 		*acc = append(*acc, signedExpr{ast.Unparen(e), neg})
 	}
-	ast.Inspect(body, func(n ast.Node) bool {
-		switch t := n.(type) {
-		case *ast.FuncLit:
-			return false
-		case *ast.CallExpr:
-			if id, ok := t.Fun.(*ast.Ident); ok && (id.Name == "old" || id.Name == "cur") {
-				return false
-			}
-		case *ast.IndexExpr:
-			st, ok := x.typeOf(t.X).(*types.Slice)
-			if !ok {
-				if tt := x.typeOf(t.X); tt != nil {
-					st, ok = tt.Underlying().(*types.Slice)
-				}
-			}
-			_ = st
-			if !ok || mentions(t.X) || x.classify(x.typeOf(t.X)).K == TGhostMap {
-				return true
-			}
-			var terms []signedExpr
-			flatten(t.Index, false, &terms)
-			var v types.Object
-			var rest []signedExpr
-			good := true
-			for _, tm := range terms {
-				if id, ok := tm.e.(*ast.Ident); ok && bound[x.objOf(id)] && v == nil && !tm.neg {
-					if _, done := out[x.objOf(id)]; !done {
-						v = x.objOf(id)
-						continue
-					}
-				}
-				rest = append(rest, tm)
-			}
-			if v != nil {
-				// the remaining terms must not mention v itself
-				for _, tm := range rest {
-					ast.Inspect(tm.e, func(m ast.Node) bool {
-						if id, ok := m.(*ast.Ident); ok && x.objOf(id) == v {
-							good = false
-						}
-						return good
-					})
-				}
-			}
-			if good && v != nil {
-				if _, done := out[v]; !done {
-					out[v] = quantAnchor{node: t, rest: rest, text: x.nodeText(t)}
-				}
-			}
-		}
-		return true
-	})
-	// every syntactically identical read is anchored as well
-	for v, a := range out {
-		ast.Inspect(body, func(n ast.Node) bool {
+	var oldArgs []ast.Expr
+	var scan func(root ast.Node, inOld bool)
+	scan = func(root ast.Node, inOld bool) {
+		ast.Inspect(root, func(n ast.Node) bool {
 			switch t := n.(type) {
 			case *ast.FuncLit:
 				return false
 			case *ast.CallExpr:
 				if id, ok := t.Fun.(*ast.Ident); ok && (id.Name == "old" || id.Name == "cur") {
+					if id.Name == "old" && !inOld && len(t.Args) == 1 {
+						oldArgs = append(oldArgs, t.Args[0])
+					}
 					return false
 				}
 			case *ast.IndexExpr:
-				if x.nodeText(t) == a.text {
-					a.nodes = append(a.nodes, t)
+				st, ok := x.typeOf(t.X).(*types.Slice)
+				if !ok {
+					if tt := x.typeOf(t.X); tt != nil {
+						st, ok = tt.Underlying().(*types.Slice)
+					}
+				}
+				_ = st
+				if !ok || mentions(t.X) || x.classify(x.typeOf(t.X)).K == TGhostMap {
+					return true
+				}
+				var terms []signedExpr
+				flatten(t.Index, false, &terms)
+				var v types.Object
+				var rest []signedExpr
+				good := true
+				for _, tm := range terms {
+					if id, ok := tm.e.(*ast.Ident); ok && bound[x.objOf(id)] && v == nil && !tm.neg {
+						if _, done := out[x.objOf(id)]; !done {
+							v = x.objOf(id)
+							continue
+						}
+					}
+					rest = append(rest, tm)
+				}
+				if v != nil {
+					// the remaining terms must not mention v itself
+					for _, tm := range rest {
+						ast.Inspect(tm.e, func(m ast.Node) bool {
+							if id, ok := m.(*ast.Ident); ok && x.objOf(id) == v {
+								good = false
+							}
+							return good
+						})
+					}
+				}
+				if good && v != nil {
+					if _, done := out[v]; !done {
+						out[v] = quantAnchor{node: t, rest: rest, text: x.nodeText(t), inOld: inOld}
+					}
 				}
 			}
 			return true
 		})
+	}
+	scan(body, false)
+	// variables without an anchor outside old(): look for one inside old(...)
+	for _, oa := range append([]ast.Expr{}, oldArgs...) {
+		scan(oa, true)
+	}
+	// every syntactically identical read is anchored as well
+	for v, a := range out {
+		roots := []ast.Node{body}
+		if a.inOld {
+			roots = nil
+			for _, oa := range oldArgs {
+				roots = append(roots, oa)
+			}
+		}
+		for _, root := range roots {
+			ast.Inspect(root, func(n ast.Node) bool {
+				switch t := n.(type) {
+				case *ast.FuncLit:
+					return false
+				case *ast.CallExpr:
+					if id, ok := t.Fun.(*ast.Ident); ok && (id.Name == "old" || id.Name == "cur") {
+						return false
+					}
+				case *ast.IndexExpr:
+					if x.nodeText(t) == a.text {
+						a.nodes = append(a.nodes, t)
+					}
+				}
+				return true
+			})
+		}
 		out[v] = a
 	}
 	return out
@@ -987,9 +1049,11 @@ func (x *Exec) applyContract(ct *Contract, fn *types.Func, sel *ast.SelectorExpr
 		c.assume(st.pc, t)
 	}
 	pre := st.clone()
+	callN0 := c.n
 	// modifies
 	x.havocModifies(ct, sc, st, pre, env2, e.Pos())
-	// results
+	// results; from here on every assumed fact defines symbols created by this call (counter range (callN0, n])
+	c.defCur = &[2]int{callN0, 0}
 	var results []Value
 	savedRes := x.curResults
 	var resPaths []string
@@ -1012,10 +1076,12 @@ func (x *Exec) applyContract(ct *Contract, fn *types.Func, sel *ast.SelectorExpr
 			}
 		}
 	}
+	// the postconditions define the symbols created by this call (counter range (n0, n])
 	for _, cl := range ct.Ensures {
 		t := x.evalClause(cl, sc, st, env2)
 		c.assume(st.pc, t)
 	}
+	c.defCur = nil
 	x.oldStack = x.oldStack[:len(x.oldStack)-1]
 	x.curResults = savedRes
 	for i, rt := range resTypes {
